@@ -309,3 +309,41 @@ PROPERTIES["C09"] = {
                "longer streams and more segments",
     "assumptions": ["E1 tracing stub", "hooks store a segment the way process_tcp_packet does (push of TcpData{sequence, payload})"],
 }
+
+# ------------------------------------------------------------------------------------------ C03
+_c03 = [
+    H("c03::c03_ttl_all", "quick", "all 256 TTLs", "guess_distance / calculate_ttl == p0f rule (next of 32/64/128/255, <= 30 hops)"),
+    H("c03::c03_role_predicates", "quick", "all 256 flag bytes", "from_client, from_server, is_valid"),
+    H("c03::c03_ipv4_olen", "quick", "all IHL values", "olen == option bytes"),
+    H("c03::c03_flag_shape", "quick", "IPv4 SYN skeleton, symbolic TCP flag byte, seq/ack/urgent zero-or-not, no options",
+      "refused iff invalid flags; client signature iff SYN without ACK; server signature iff ACK when SYN; quirk list == oracle in order; layout, pclass, ittl", timeout_s=900),
+    H("c03::c03_flag_non_handshake", "quick", "same skeleton, every flag byte without SYN (known finding D4)", "neither signature"),
+    H("c03::c03_ipv4_shape", "quick", "symbolic TOS, IP flag bits, ID zero-or-not, TTL", "fragments refused; ecn, 0+, df, id+, id- exactly; ittl", timeout_s=900),
+    H("c03::c03_ipv6_shape", "quick", "symbolic traffic class, flow label, hop limit", "flow, ecn exactly; version, olen, ittl"),
+    H("c03::c03_mss_window_shape", "quick", "SYN with MSS option: MSS and window symbolic", "mss value; window n*(MSS+40) rendered mtu*n; MTU present", timeout_s=1200),
+    H("c03::c03_mtu_opt4", "quick", "SYN with MSS (symbolic) and 4 option bytes (known finding D3)", "MTU == MSS+40"),
+    H("c03::c03_mtu_opt12", "quick", "12 option bytes (known finding D3)", "MTU == MSS+40"),
+    H("c03::c03_mtu_opt20", "quick", "20 option bytes", "MTU == MSS+40"),
+    H("c03::c03_eol_pad0", "quick", "NOP NOP NOP EOL", "layout ends with eol+0"),
+    H("c03::c03_eol_pad1", "quick", "NOP NOP EOL + 1 zero byte (known finding D24)", "layout ends with eol+1"),
+    H("c03::c03_eol_pad2", "thorough", "5 NOP, EOL + 2 zero bytes (known finding D24)", "layout ends with eol+2"),
+]
+for n, q in [("mss_4", 1), ("mss_8_short", 0), ("ws_4", 1), ("ws_4_last_byte", 1), ("ws_4_last_byte_len3", 1), ("ws_4_kind_only", 1), ("sok_4", 0), ("sack_12", 0), ("ts_12_syn", 1), ("ts_12_synack", 0), ("ts_8_short", 1), ("unknown_8", 0)]:
+    _c03.append(H(f"c03::c03_opt_{n}", "quick" if q else "thorough", f"option {n} in last position behind NOPs, data bytes symbolic (length byte as stated in the harness)",
+                  "no panic; kinds in wire order; mss/ws values; exws, ts1-, ts2+ exactly", timeout_s=900))
+for n, q in [("mss1460_v4", 1), ("mss1460_v4_ts", 1), ("mss1440_v6", 1), ("mss1220_v6_ts", 1), ("mss1024_v4", 0), ("mss536_v4", 0), ("mss100_v4_ts", 1), ("mss99_v4", 1), ("mss65535_v4", 0), ("mss8961_v6_ts", 0)]:
+    _c03.append(H(f"c03::c03_window_{n}", "quick" if q else "thorough", f"detect_win_multiplicator: every window at {n}", "answer sound (mss*n / %n largest modulus / mtu*n / raw) and complete in rule order"))
+for n in ["v4_h40", "v4_h40_ts", "v6_h60", "v6_h60_ts", "v4_h0"]:
+    _c03.append(H(f"c03::c03_window_{n}", "thorough", f"detect_win_multiplicator: every (window, MSS) pair, {n}", "same", timeout_s=3300, optional=True))
+PROPERTIES["C03"] = {
+    "harnesses": _c03,
+    "explanation": "Bounded model checking of the TCP extractors: scalar kernels over all inputs against the p0f field rules, and the private visit_tcp through the "
+                   "public process_tcp_ipv4/ipv6 on frames with a concrete skeleton and one symbolic header group at a time (TCP flags + zero/non-zero fields; "
+                   "IP TOS/flags/ID/TTL; IPv6 class/flow/hop limit; one option in last position with symbolic data; MSS value + window).",
+    "functions": ["ttl::{calculate_ttl, guess_distance}", "window_size::detect_win_multiplicator", "tcp_process::{from_client, from_server, is_valid, process_tcp_ipv4, process_tcp_ipv6, visit_tcp}",
+                  "ip_options::IpOptions::calculate_ipv4_length", "mtu::extract_from_ipv4", "pnet TcpPacket/TcpOptionPacket as compiled"],
+    "bounds": "one header group symbolic per harness; option area 4..12 bytes, option under test in last position with a concrete (valid) length byte; 'all (window, MSS)' only in the thorough tier",
+    "outside": "option sequences with symbolic kinds/lengths in the middle (a symbolic remainder is re-parsed: > 15 min), malformed length bytes followed by symbolic data, 40-byte option areas, "
+               "Display of the observable, matching_by_mtu (needs a Database), IPv6 extension headers, payload class NonZero",
+    "assumptions": ["E1 tracing stub", "E3 ttl_cache model", "E6 format stub", "check_ts_tcp stubbed to (None, None) (decided in C19)"],
+}
